@@ -20,6 +20,8 @@ def sh(cmd, cwd=None, env=None, timeout=2400):
 def one(prop):
     rc, out = sh('/venv/bin/python check.py %s --tier quick' % prop, cwd=VERIF, env=dict(os.environ, VERIF_SEED='4'))
     line = [l for l in out.split('\n') if l.startswith('VIOLATION')]
+    if rc not in (0, 1):
+        open('/tmp/matrix_infra_%s.log' % prop, 'w').write(out[-3000:])
     return prop, rc, (line[0] if line else '')
 
 
